@@ -154,6 +154,32 @@ static void enQueueMinRat(int* heap, int* size, int elem)
 #endif  /* SOPLEX_DEBUG */
 }
 
+/* In exact arithmetic an entry that was queued can cancel to exactly zero and be filled in again (the floating-point code keeps
+ * such an entry alive with a tiny marker value): queue a fill-in only if it is not in the heap already, otherwise the heap grows
+ * beyond the index array.
+ */
+static void enQueueMaxRatOnce(int* heap, int* size, int elem)
+{
+   for(int k = 0; k < *size; ++k)
+   {
+      if(heap[k] == elem)
+         return;
+   }
+
+   enQueueMaxRat(heap, size, elem);
+}
+
+static void enQueueMinRatOnce(int* heap, int* size, int elem)
+{
+   for(int k = 0; k < *size; ++k)
+   {
+      if(heap[k] == elem)
+         return;
+   }
+
+   enQueueMinRat(heap, size, elem);
+}
+
 static int deQueueMinRat(int* heap, int* size)
 {
    int e, elem;
@@ -1005,7 +1031,7 @@ inline void CLUFactorRational::forestUpdate(int p_col, Rational* p_work, int num
                Rational y = p_work[jj];
 
                if(y == 0)
-                  enQueueMinRat(nonz, &num, cperm[jj]);
+                  enQueueMinRatOnce(nonz, &num, cperm[jj]);
 
                y -= x * rval[j];
 
@@ -4260,7 +4286,7 @@ inline int CLUFactorRational::solveUleft(Rational* vec, int* vecidx,
                if(y != 0)
                {
                   rhs[j] = y;
-                  enQueueMinRat(rhsidx, &rhsn, cperm[j]);
+                  enQueueMinRatOnce(rhsidx, &rhsn, cperm[j]);
                }
             }
             else
@@ -4336,7 +4362,7 @@ inline void CLUFactorRational::solveUleftNoNZ(Rational* vec, Rational* rhs, int*
                if(y != 0)
                {
                   rhs[j] = y;
-                  enQueueMinRat(rhsidx, &rhsn, cperm[j]);
+                  enQueueMinRatOnce(rhsidx, &rhsn, cperm[j]);
                }
             }
             else
@@ -4513,7 +4539,7 @@ inline int CLUFactorRational::solveLleft(Rational* vec, int* nonz, int rn)
                if(y != 0)
                {
                   vec[m] = y;
-                  enQueueMaxRat(nonz, &rn, rperm[m]);
+                  enQueueMaxRatOnce(nonz, &rn, rperm[m]);
                }
             }
             else
@@ -5061,7 +5087,7 @@ inline int CLUFactorRational::vSolveUright(Rational* vec, int* vidx,
                if(y != 0)
                {
                   rhs[k] = y;
-                  enQueueMaxRat(ridx, &rn, rperm[k]);
+                  enQueueMaxRatOnce(ridx, &rn, rperm[k]);
                }
             }
             else
@@ -5196,7 +5222,7 @@ inline void CLUFactorRational::vSolveUrightNoNZ(Rational* vec, Rational* rhs, in
                if(y != 0)
                {
                   rhs[k] = y;
-                  enQueueMaxRat(ridx, &rn, rperm[k]);
+                  enQueueMaxRatOnce(ridx, &rn, rperm[k]);
                }
             }
             else
@@ -5289,7 +5315,7 @@ inline int CLUFactorRational::vSolveUright2(Rational* vec, int* vidx, Rational* 
                   if(y2 != 0)
                   {
                      rhs2[k] = y2;
-                     enQueueMaxRat(ridx2, &rn2, rperm[k]);
+                     enQueueMaxRatOnce(ridx2, &rn2, rperm[k]);
                   }
                }
                else
@@ -5308,7 +5334,7 @@ inline int CLUFactorRational::vSolveUright2(Rational* vec, int* vidx, Rational* 
                   if(y != 0)
                   {
                      rhs[k] = y;
-                     enQueueMaxRat(ridx, &rn, rperm[k]);
+                     enQueueMaxRatOnce(ridx, &rn, rperm[k]);
                   }
                }
                else
@@ -5334,7 +5360,7 @@ inline int CLUFactorRational::vSolveUright2(Rational* vec, int* vidx, Rational* 
                   if(y != 0)
                   {
                      rhs[k] = y;
-                     enQueueMaxRat(ridx, &rn, rperm[k]);
+                     enQueueMaxRatOnce(ridx, &rn, rperm[k]);
                   }
                }
                else
@@ -5368,7 +5394,7 @@ inline int CLUFactorRational::vSolveUright2(Rational* vec, int* vidx, Rational* 
                if(y2 != 0)
                {
                   rhs2[k] = y2;
-                  enQueueMaxRat(ridx2, &rn2, rperm[k]);
+                  enQueueMaxRatOnce(ridx2, &rn2, rperm[k]);
                }
             }
             else
